@@ -24,6 +24,7 @@ class LoopSpec(object):
         self.lemmas_head = []
         self.lemmas_tail = []
         self.acc = None          # (name, elem descriptor) accumulator of yielded values
+        self.consts = []         # (name, expr): ghost constants fixed at loop entry
 
 
 class Contract(object):
@@ -224,19 +225,45 @@ class SpecFrameBuilder(object):
 
 
 # ------------------------------------------------------------------------- applying at call sites
+class NoContractMatch(Exception):
+    """the ghost arguments of a callee contract could not be matched: the caller inlines the body"""
+
+
 def apply_contract(it, fv, args, kwargs):
     """Modular call: check requires, then assume ensures about a fresh / abstract result."""
     from .calls import bind_args
-    c = it.contracts.get(fv.qualname)
+    c = it.hooks.get('call_contracts', {}).get(fv.qualname) or it.contracts.get(fv.qualname)
     if c is None:
         raise Unsupported('no contract for %s' % fv.qualname)
+    if callable(c):
+        c = c(it, fv, args, kwargs)      # contract chosen by the receiver (e.g. per class)
+        if c is None:
+            raise NoContractMatch()
     bound = bind_args(it, fv, args, kwargs)
     sb = SpecFrameBuilder(it, fv, bound)
     fr = sb.frame
     caller = it.p.label
+    binder = getattr(c, 'ghost_binder', None)
+    if binder is not None:
+        # ghost arguments of the callee's contract are found by matching the caller's state
+        ghosts = binder(it, bound)
+        if ghosts is None:
+            raise NoContractMatch()
+        fr.locals.update(ghosts)
     for label, expr in c.requires:
         v = spec_eval(it, expr, fr)
         it.p.oblige('%s#pre:%s@%s' % (c.qualname, label, caller), as_formula(it, v), kind='pre')
+    if getattr(c, 'result_expr', None) is not None:
+        result = spec_eval(it, c.result_expr, fr)
+        fr.locals['result'] = result
+        for src in getattr(c, 'post_effects', ()):
+            saved_mode = it.spec_mode
+            it.spec_mode = True
+            try:
+                it.exec_block(parse_stmts(src), fr)
+            finally:
+                it.spec_mode = saved_mode
+        return result
     if c.abstract is not None:
         # abstract body runs in the callee's namespace with the bound parameters
         from .interp import Frame
